@@ -22,6 +22,31 @@ use unic_locale_impl::{ExtensionsMap, Locale};
 // the from_parts product (DESIGN §4 C04 (b))
 // ------------------------------------------------------------------------------------------
 
+/// One value per SAFE way of constructing the subtag from this text: the property speaks of
+/// values "obtainable through the safe API", and the constructors are separate pieces of code
+/// (`from_bytes`, `FromStr`, and for `Language` the `TryFrom<Option<_>>` impl).
+macro_rules! subtag_ctors {
+    (Language, $b:expr) => {{
+        let b: &[u8] = $b;
+        let mut v: Vec<(&'static str, Out<Language>)> = vec![("from_bytes", guard(|| Language::from_bytes(b)))];
+        if let Ok(s) = std::str::from_utf8(b) {
+            v.push(("from_str", guard(|| Language::from_str(s))));
+            v.push(("try_from(Some(&str))", guard(|| <Language as std::convert::TryFrom<Option<&str>>>::try_from(Some(s)))));
+        }
+        v.push(("try_from(Some(&[u8]))", guard(|| <Language as std::convert::TryFrom<Option<&[u8]>>>::try_from(Some(b)))));
+        v
+    }};
+    ($ty:ident, $b:expr) => {{
+        let b: &[u8] = $b;
+        let mut v: Vec<(&'static str, Out<$ty>)> = vec![("from_bytes", guard(|| $ty::from_bytes(b)))];
+        if let Ok(s) = std::str::from_utf8(b) {
+            v.push(("from_str", guard(|| $ty::from_str(s))));
+        }
+        v
+    }};
+}
+
+
 // (two of the five are an order-hazard pair: `aaaaz` < `zaaaa` lexicographically, the other way
 // round as little-endian integers; `fonipa` vs `zaaaa` separates length-first orders)
 pub const FP_VARIANTS: [&str; 5] = ["valencia", "1996", "fonipa", "zaaaa", "aaaaz"];
@@ -452,18 +477,22 @@ fn subtag_roundtrips(ctx: &Ctx, rep: &mut Report) {
         let st = run_space(ctx, sp.as_ref(), 1 << 12, &|b, l| {
             macro_rules! rt {
                 ($ty:ident, $pred:expr, $norm:expr) => {{
-                    match guard(|| $ty::from_bytes(b)) {
-                        Out::Ok(v) => {
-                            l.nontrivial += 1;
-                            let s = v.to_string();
-                            match $ty::from_str(&s) {
-                                Ok(v2) if v2 == v && s == $norm(b) => {}
-                                o => coll.push(l.order, Violation { sub: "c05.subtag", class: format!("{}: to_string does not re-parse to an equal subtag", kind), case: Case::Input(b.to_vec()), expected: format!("Ok({})", $norm(b)), observed: format!("{:?} for {}", o, s) }),
+                    for (i, (via, r)) in subtag_ctors!($ty, b).into_iter().enumerate() {
+                        match r {
+                            Out::Ok(v) => {
+                                if i == 0 {
+                                    l.nontrivial += 1;
+                                }
+                                let s = v.to_string();
+                                match $ty::from_str(&s) {
+                                    Ok(v2) if v2 == v && s == $norm(b) => {}
+                                    o => coll.push(l.order, Violation { sub: "c05.subtag", class: format!("{} built with {}: to_string does not re-parse to an equal subtag", kind, via), case: Case::Input(b.to_vec()), expected: format!("Ok({})", $norm(b)), observed: format!("{:?} for {}", o, s) }),
+                                }
                             }
-                        }
-                        o => {
-                            if $pred(b) {
-                                coll.push(l.order, Violation { sub: "c05.subtag", class: format!("{}: a valid subtag does not parse", kind), case: Case::Input(b.to_vec()), expected: "Ok".into(), observed: o.brief(|x| x.to_string()) });
+                            o => {
+                                if $pred(b) {
+                                    coll.push(l.order, Violation { sub: "c05.subtag", class: format!("{}: a valid subtag does not parse with {}", kind, via), case: Case::Input(b.to_vec()), expected: "Ok".into(), observed: o.brief(|x| x.to_string()) });
+                                }
                             }
                         }
                     }
@@ -497,11 +526,13 @@ pub fn replay_ext_string(b: &[u8], l: &mut Local, coll: &Collector) {
 pub fn replay_subtag_rt(b: &[u8], l: &mut Local, coll: &Collector) {
     macro_rules! rt {
         ($ty:ident, $name:expr, $norm:expr) => {{
-            if let Out::Ok(v) = guard(|| $ty::from_bytes(b)) {
-                let s = v.to_string();
-                match $ty::from_str(&s) {
-                    Ok(v2) if v2 == v && s == $norm(b) => {}
-                    o => coll.push(l.order, Violation { sub: "c05.subtag", class: format!("{}: to_string does not re-parse to an equal subtag", $name), case: Case::Input(b.to_vec()), expected: format!("Ok({})", $norm(b)), observed: format!("{:?} for {}", o, s) }),
+            for (via, r) in subtag_ctors!($ty, b) {
+                if let Out::Ok(v) = r {
+                    let s = v.to_string();
+                    match $ty::from_str(&s) {
+                        Ok(v2) if v2 == v && s == $norm(b) => {}
+                        o => coll.push(l.order, Violation { sub: "c05.subtag", class: format!("{} built with {}: to_string does not re-parse to an equal subtag", $name, via), case: Case::Input(b.to_vec()), expected: format!("Ok({})", $norm(b)), observed: format!("{:?} for {}", o, s) }),
+                    }
                 }
             }
         }};
